@@ -78,6 +78,7 @@ def run(ctx):
   counters(ctx)
   ds_guards(ctx)
   ds_step_threading(ctx)
+  sharded_root_operands(ctx)
   ds_warmup(ctx)
   tearfree_shampoo(ctx)
   tearfree_sketchy(ctx)
@@ -418,6 +419,48 @@ def sharded_metrics(ctx):
     ctx.ob('C04.K3', fu.short, 'sharded metrics keep_old = not perform_step', g is not None and is_path(g[0], 'state', 'count'),
            f'keep_old must be the negated refresh guard; got `{show(ko, maxdepth=5)[:120]}`', ctx.loc(fu),
            sample='keep_old = ~(state.count % k == 0)')
+
+
+def sharded_root_operands(ctx):
+  """K4 (sharded mode): the refresh inside `sharded_update_fn` takes the roots of THIS step's statistics - the first
+  operand of the batched root computation is the stack of the padded statistics returned by `_compute_stats` on this
+  step (not the stacked statistics of the incoming state, which lag one step behind), and the exponents are the
+  stored ones."""
+  m = ctx.model
+  q, fixed, cls, slot = D.MODES[-1]
+  n = 0
+  for v in D.valuations(ctx.thorough):
+    fi, ev, r = D.eval_mode(m, q, fixed, v)
+    ctx.analysed(fi)
+    ctx.evaluations += 1
+    vtag = ','.join(f'{k}={int(b)}' for k, b in v.items())
+    roots = list(dict.fromkeys(x for x in walk(r) if fn_name(x) == '_matrix_inverse_pth_root_pjit'))
+    if not roots:
+      raise AnalysisError(f'{q}: no batched root computation found [{vtag}]')
+    callee = m.func(D.MOD, 'distributed_shampoo._matrix_inverse_pth_root_pjit')
+    names = [a.arg for a in callee.node.args.args]
+    for x in roots:
+      n += 1
+      bound = dict(zip(names, x.args[1]))
+      bound.update(dict(x.args[2]))
+      xs = bound.get('xs', NONE)
+      pads = [y for y in walk(xs) if fn_name(y) == 'pad_square_matrix']
+      fresh = any(fn_name(z) == '_compute_stats' for y in pads for z in walk(y.args[1][0])) if pads else \
+          any(fn_name(z) == '_compute_stats' for z in walk(xs))
+      ctx.ob('C04.K4', fi.short, f'sharded roots computed from this step\'s statistics [{vtag}]', fresh,
+             f'the statistics handed to _matrix_inverse_pth_root_pjit must be the ones _compute_stats returned on this step; got `{show(xs, maxdepth=4)[:160]}`',
+             ctx.loc(fi), sample='_matrix_inverse_pth_root_pjit(stack(pad(new statistics)), ...)')
+      ps = bound.get('ps', NONE)
+      ctx.ob('C04.K4', fi.short, f'sharded roots use the stored exponents [{vtag}]', is_path(ps, 'state', 'stats', 'global_stats', 'exponents'),
+             f'the exponents handed to _matrix_inverse_pth_root_pjit must be state.stats.global_stats.exponents; got `{show(ps, maxdepth=4)[:120]}`',
+             ctx.loc(fi), sample='global_stats.exponents')
+      pst = bound.get('padding_starts', NONE)
+      okp = any(y.op == 'call' and y.args[0].op == 'builtin' and y.args[0].args[0] == 'len' for y in walk(pst)) and \
+          not any(is_path(y, 'state', 'stats', 'global_stats', 'exponents') for y in walk(pst))
+      ctx.ob('C04.K4', fi.short, f'sharded roots masked with the statistics\' own sizes [{vtag}]', okp,
+             f'the padding starts handed to _matrix_inverse_pth_root_pjit must be the sizes of this step\'s statistics; got `{show(pst, maxdepth=4)[:120]}`',
+             ctx.loc(fi), sample='array([len(stat) ...] + [0] * to_pad)')
+  ctx.need('C04.K4', n, 3, 'sharded root computations')
 
 
 def ds_step_threading(ctx):
